@@ -105,9 +105,14 @@ class CacheStore(object):
         hexdigest = hashlib.sha1(filename.encode('utf-8')).hexdigest()
         return os.path.join(self._directory, hexdigest)
 
-    def _cache_is_valid(self, store_filename, filename):
+    def _cache_is_valid(self, store_filename, filename, fd=None):
         try:
-            store_mtime = os.stat(store_filename).st_mtime
+            if fd is not None:
+                # Validate the file we are going to read, not whatever
+                # the name refers to by now (it may have been replaced)
+                store_mtime = os.fstat(fd.fileno()).st_mtime
+            else:
+                store_mtime = os.stat(store_filename).st_mtime
         except FileNotFoundError:
             return False
 
@@ -171,7 +176,7 @@ class CacheStore(object):
                 raise
 
         with fd:
-            if not self._cache_is_valid(store_filename, filename):
+            if not self._cache_is_valid(store_filename, filename, fd):
                 return None
             try:
                 data = pickle.load(fd)
